@@ -187,7 +187,7 @@ func initSyncModels() {
 			i := fr.i
 			i.yield()
 			p := nonNil(args[0])
-			eq := i.binop(token.EQL, nil, *p, args[1])
+			eq := i.binop(token.EQL, atomicBasic[ty], *p, args[1])
 			if i.branchVal(eq) {
 				*p = args[2]
 				return true
@@ -230,6 +230,9 @@ func initSyncModels() {
 		return false
 	}
 }
+
+var atomicBasic = map[string]types.Type{"Int32": types.Typ[types.Int32], "Int64": types.Typ[types.Int64],
+	"Uint32": types.Typ[types.Uint32], "Uint64": types.Typ[types.Uint64], "Uintptr": types.Typ[types.Uintptr]}
 
 func nonNil(v value) *value {
 	p := v.(*value)
